@@ -28,6 +28,19 @@ if c15:
         files[f]=files.get(f,0)+1
     rows.append(f"| C15 | C15H-001 … C15H-{len(c15):03d} | one exact entry per (format, entry point, outcome, normalised message, source file); harness wildcarded | hostile-input panic / hang / abort sites: "+', '.join(f'{f} ×{n}' for f,n in sorted(files.items()))+" | each needs its own bounds check / error path; not a small repair as a whole |")
 block('open','\n'.join(rows))
+# status table from MANIFEST + evidence
+m=json.load(open('/verif/MANIFEST.json'))
+rows=['| id | level | tier of committed evidence | harnesses | evaluations | distinct | states | exhaustive | known findings observed | wall s |','|---|---|---|---|---|---|---|---|---|---|']
+for c in m['checks']:
+    p=c['property_id']
+    try:
+        e=json.load(open(f'/verif/evidence/{p}.json')); cov=e['coverage']
+        hs=', '.join(h.get('harness','?') for h in cov.get('harnesses',[]))
+        rows.append(f"| {p} | {e['level']} | {e['tier']} | {hs[:300]} | {cov['evaluations']:,} | {cov['distinct_nontrivial']:,} | {cov.get('states',0):,} | {cov.get('exhaustive')} | {', '.join(cov.get('known_findings_observed',[]))[:120]} | {e['wall_s']:.0f} |")
+    except Exception as ex:
+        rows.append(f'| {p} | ? | no evidence yet ({ex}) | | | | | | | |')
+na=m.get('not_applicable',[])
+block('status','\n'.join(rows)+'\n\nnot_applicable: '+(', '.join(n['property_id']+' ('+n['reason']+')' for n in na) if na else 'none — all twenty properties are decided by bounded exhaustive exploration of the real code.'))
 # catch table
 out=subprocess.run(['/verif/tools/catchtable.py'],capture_output=True,text=True).stdout
 block('catch',out)
